@@ -36,7 +36,17 @@ func (r *Rng) Range(lo, hi int) int { return lo + r.Intn(hi-lo+1) }
 
 func (r *Rng) Uniform(lo, hi float64) float64 { return lo + (hi-lo)*r.F() }
 
-func (r *Rng) Bool(p float64) bool { return r.F() < p }
+// hotGen: while a "hot" scenario is generated / written, every rarely taken choice (probability up to a third) is taken with
+// probability one half: the rare features, each drawn independently with a few per cent, then meet in one project (4 % of the
+// cases of the simulation checks). The number of draws stays the same, so all other scenarios are unchanged.
+var hotGen bool
+
+func (r *Rng) Bool(p float64) bool {
+	if hotGen && p > 0 && p <= 0.34 {
+		p = 0.5
+	}
+	return r.F() < p
+}
 
 func (r *Rng) Norm() float64 {
 	u1 := r.F()
